@@ -68,3 +68,85 @@ Theorem C01_ninst_counts : forall A : Arith,
   (forall c ops, d_ninst (CusumD A) (exec (CusumD A) c ops) = updates_since_reset (CusumD A) ops) /\
   (forall c ops, d_ninst (ADWIND A) (exec (ADWIND A) c ops) = updates_since_reset (ADWIND A) ops).
 Proof. intro A. repeat match goal with |- _ /\ _ => split end; intros; first [apply ddm_ninst | apply cusum_ninst | apply adwin_ninst]. Qed.
+
+(** * Constant streams (over R): no detector other than BOCD alarms on a stream whose values
+    are all identical, whatever resets are interleaved.  Domains: 0/1 for the error-stream
+    detectors, any real for CUSUM/PH/GMA, HDDM-A and KSWIN, non-negative for ADWIN; the
+    configuration hypotheses are the documented domains.  HDDM-W is proved for the constant
+    0 only: for c > 0 the property is violated by the algorithm's own initialisation
+    (EWMA statistics start at 0) — known finding F05, witness below. *)
+From Coq Require Import Reals.
+From FV Require Import RealA ConstantR.
+Local Open Scope R_scope.
+
+Theorem C01_constant_cusum : forall (c : cusum_cfg RealA) (k : R) ops,
+  0 <= ck_delta c -> 0 <= ck_lambda c -> 0 <= ck_alpha c <= 1 -> const_ops k ops ->
+  cs_drift (exec (CusumD RealA) c ops) = false.
+Proof. exact cusum_constant. Qed.
+Theorem C01_constant_ddm : forall (c : ddm_cfg RealA) (k : R) ops,
+  (k = 0 \/ k = 1) -> 0 < dd_warn c -> 0 < dd_drift c -> const_ops k ops ->
+  ddrift (exec (DDMD RealA) c ops) = false /\ dwarning (exec (DDMD RealA) c ops) = false.
+Proof. exact ddm_constant. Qed.
+Theorem C01_constant_rddm : forall (c : rddm_cfg RealA) (k : R) ops,
+  (k = 0 \/ k = 1) -> 0 < rd_warn c -> 0 < rd_drift c -> (1 <= rd_min_concept c)%Z -> const_ops k ops ->
+  rdrift (exec (RDDMD RealA) c ops) = false /\ rwarning (exec (RDDMD RealA) c ops) = false.
+Proof. exact rddm_constant. Qed.
+Theorem C01_constant_eddm : forall (c : eddm_cfg RealA) (k : R) ops,
+  (k = 0 \/ k = 1) -> 0 < ed_beta c -> ed_beta c < ed_alpha c -> ed_alpha c <= 1 -> 0 < ed_level c ->
+  const_ops k ops ->
+  edrift (exec (EDDMD RealA) c ops) = false /\ ewarning (exec (EDDMD RealA) c ops) = false.
+Proof. exact eddm_constant. Qed.
+Theorem C01_constant_ecdd : forall (c : ecdd_cfg RealA) (k : R) ops,
+  (k = 0 \/ k = 1) -> 0 <= ec_lambda c <= 1 -> 0 < ec_warn c -> const_ops k ops ->
+  cdrift (exec (ECDDD RealA) c ops) = false /\ cwarning (exec (ECDDD RealA) c ops) = false.
+Proof. exact ecdd_constant. Qed.
+Theorem C01_constant_stepd : forall (c : stepd_cfg RealA) (k : R) ops,
+  (k = 0 \/ k = 1) -> (1 <= sp_min c)%Z -> const_ops k ops ->
+  sdrift (exec (STEPDD RealA) c ops) = false /\ swarning (exec (STEPDD RealA) c ops) = false.
+Proof. exact stepd_constant. Qed.
+Theorem C01_constant_hddma : forall (c : hddma_cfg RealA) (k : R) ops,
+  0 < ha_alpha_d c <= 1 -> 0 < ha_alpha_w c <= 1 -> const_ops k ops ->
+  hdrift (exec (HDDMAD RealA) c ops) = false /\ hwarning (exec (HDDMAD RealA) c ops) = false.
+Proof. exact hddma_constant. Qed.
+Theorem C01_constant_hddmw_partial : forall (c : hddmw_cfg RealA) ops,
+  0 < hw_alpha_d c <= 1 -> 0 < hw_alpha_w c <= 1 -> 0 <= hw_lambda c <= 1 -> const_ops 0 ops ->
+  wdrift (exec (HDDMWD RealA) c ops) = false /\ wwarning (exec (HDDMWD RealA) c ops) = false.
+Proof. exact hddmw_constant_zero. Qed.
+(** KSWIN: whatever sample of the (constant) older part the generator draws *)
+Theorem C01_constant_kswin : forall (c : kswin_cfg) (k : R) (ops : list (op (R * list R))),
+  (0 < kw_alpha_num c)%Z -> (kw_alpha_num c < kw_alpha_den c)%Z -> (1 <= kw_test c)%Z ->
+  Forall (fun o => o = Rst \/ exists sample, o = Upd (k, sample) /\
+            (sample = [] \/ (List.length sample = Z.to_nat (kw_test c) /\ Forall (fun x => x = k) sample))) ops ->
+  kdrift (exec (KSWIND RealA) c ops) = false.
+Proof. exact kswin_constant. Qed.
+Theorem C01_constant_adwin : forall (c : adwin_cfg RealA) (k : R) ops,
+  0 <= k -> 0 < ad_delta c < 1 -> (1 <= ad_m c)%Z -> (1 <= ad_mws c)%Z -> (1 <= ad_clock c)%Z ->
+  const_ops k ops -> adrift (exec (ADWIND RealA) c ops) = false.
+Proof. exact adwin_constant. Qed.
+Print Assumptions C01_constant_adwin.
+Print Assumptions C01_constant_kswin.
+Print Assumptions C01_constant_rddm.
+
+(** F05 (known finding): the full statement is FALSE for HDDM-W and a constant c > 0 —
+    witnessed on the binary64 instance: alpha_d = 0.1, alpha_w = 1, lambda_ = 0.05,
+    min_num_instances = 3, stream 1,1,1 ends in a warning. *)
+From Coq Require Import PrimFloat.
+From FV Require Import FloatA.
+Theorem C01_constant_hddmw_refuted :
+  exists (c : hddmw_cfg FloatA) (ops : list (op float)),
+    Forall (fun o => o = Upd 1%float) ops /\
+    (wdrift (exec (HDDMWD FloatA) c ops) || wwarning (exec (HDDMWD FloatA) c ops)) = true.
+Proof.
+  exists {| hw_alpha_d := 0x1.999999999999ap-4%float; hw_alpha_w := 1%float; hw_two := true;
+            hw_lambda := 0x1.999999999999ap-5%float; hw_min := 3 |}.
+  exists [Upd 1%float; Upd 1%float; Upd 1%float].
+  split; [ apply Forall_cons; [reflexivity|]; apply Forall_cons; [reflexivity|]; apply Forall_cons; [reflexivity|]; apply Forall_nil | vm_compute; reflexivity].
+Qed.
+
+(** non-vacuity: after the warm-up DDM does alarm (drift exactly at step [min] is impossible for
+    DDM since the first eligible step sets the minimum; here drift at step 4 with min = 2) *)
+Example C01_nonvacuous_ddm :
+  let c := {| dd_warn := 0x1p-1%float; dd_drift := 1%float; dd_min := 2 |} : ddm_cfg FloatA in
+  map (fun s => (ddrift s, dwarning s)) (trace (DDMD FloatA) c [Upd 0%float; Upd 0%float; Upd 0%float; Upd 1%float; Upd 1%float])
+  = [(false,false); (false,false); (false,false); (true,false); (true,false)].
+Proof. vm_compute. reflexivity. Qed.
